@@ -1,9 +1,9 @@
 package sq
 
 import (
+	"verif/fold"
 	"encoding/json"
 	"fmt"
-	"strings"
 )
 
 type Column struct {
@@ -101,7 +101,7 @@ func (t *Table) ColIndex(name string) int {
 		if c.Hidden != 0 {
 			continue
 		}
-		if strings.EqualFold(c.Name, name) {
+		if fold.Equal(c.Name, name) {
 			return i
 		}
 		i++
@@ -138,7 +138,7 @@ type Snapshot struct {
 
 func (s *Snapshot) Table(name string) *Table {
 	for _, t := range s.Tables {
-		if strings.EqualFold(t.Name, name) {
+		if fold.Equal(t.Name, name) {
 			return t
 		}
 	}
